@@ -85,7 +85,7 @@ def zlist(xs):
 
 def run(ctx):
     ctx.rule = ("modules from harness/gen_view.py (feature vector: scalars x widths x byte orders, conditions incl. switch pattern, "
-                "dynamic offsets/sizes, bits blocks, enums, virtual fields, aliases, nested structs, parameters, arrays, $next, requires); "
+                "dynamic offsets/sizes, bits blocks, enums, virtual fields, aliases, nested structs, parameters (nested and top-level), an imported module, arrays, $next, requires, type-boundary virtual fields); "
                 "buffers of every length 0..max+2 with 0x00/0xFF/random fills; one case = (module, buffer); non-trivial = buffer long "
                 "enough for at least the tag byte; distinct by (module text, buffer)")
     ctx.trusted = ["Coq 8.16.1 kernel, vm_compute", "harness/view_x.py (IR translator + C++ driver generator)", "harness/cpp_build.py", "g++ -std=c++14 -O0"]
